@@ -629,12 +629,16 @@ class Phase(Angle):
 
     def argsort(self, axis=-1):
         """Returns the indices that would sort the phase array."""
-        phase_approx = self.cycle
-        phase_remainder = (self - phase_approx).cycle
+        # Phases are normalised (integral count, |fraction| <= 1/2), so ordering
+        # by count and then by fraction is exact (a remainder relative to the
+        # single-double value can lose the last bit of the fraction).
+        count, fraction = self["int"].value, self["frac"].value
+        if self.imaginary:
+            count, fraction = count.imag, fraction.imag
         if axis is None:
-            return np.lexsort((phase_remainder.ravel(), phase_approx.ravel()))
+            return np.lexsort((fraction.ravel(), count.ravel()))
         else:
-            return np.lexsort(keys=(phase_remainder, phase_approx), axis=axis)
+            return np.lexsort(keys=(fraction, count), axis=axis)
 
     # Below are basically straight copies from Time
     def min(self, axis=None, out=None, keepdims=False):
